@@ -135,6 +135,21 @@ pub fn random_definitions(seed: u64, n: usize) -> Vec<Definition> {
         .collect()
 }
 
+/// Definitions that compile as they stand (given `COMPILABLE_PRELUDE`): the corpus and plain random definitions, whose
+/// callbacks come from the fixed menu. Used by the derive leg of C16, where the real proc macro runs inside rustc.
+/// The caller filters out the ones the code generator rejects.
+pub fn compilable_definitions(seed: u64, n_random: usize) -> Vec<Definition> {
+    let mut v = corpus_definitions();
+    for k in 0..n_random as u64 {
+        let mut rng = Rng::for_run(seed, "defsrc/compilable-def", k);
+        let d = defs::random_def(&mut rng, &format!("Rnd{}", k), false, k % 3 == 0);
+        v.push(Definition { id: format!("random/{}", k), origin: "random".into(), source: defs::enum_source(&d) });
+    }
+    v
+}
+
+pub const COMPILABLE_PRELUDE: &str = "#![allow(dead_code)]\n#[derive(Clone, Copy, Debug, Default, PartialEq, Eq)]\npub struct Ctr { pub n: u32 }\n";
+
 pub fn all_definitions(repo: &str, seed: u64, n_random: usize) -> Vec<Definition> {
     let mut v = repo_definitions(repo);
     v.extend(corpus_definitions());
